@@ -67,6 +67,14 @@ def run_row(row):
         raise build.BodyError('boom')
       return None
 
+    if row['outcome'] == 'TIMEOUT' and (row['T'] + row['D']) % 2 == 0:
+      # a phase diagnoser that raises while the timed-out phase is finalized: only logged, the run still reports TIMEOUT
+      from openhtf.core import diagnoses_lib
+
+      def raising(phase_record):
+        raise RuntimeError('diagnoser raises on the timed-out phase')
+      p = htf.diagnose(diagnoses_lib.PhaseDiagnoser(build.R, name='dg_raises', run_func=raising))(p)
+
     def td(test):
       log.append(('td', time.time()))
 
